@@ -14,7 +14,7 @@ from .. import gens
 from ..harness import digest
 
 MANIFEST = {
-    'text': 'Held on every structure enumerated: for EVERY boolean selection vector of length 1..10 (quick) / 1..12 (thorough) combined with three cycle-length / gap layouts (no gaps, interior -1 gaps, leading+trailing gaps) all 12 emd._cycles_support.map_* functions are called on every existing sample, cycle, subset-cycle and chain and all 6 project_* functions on distinct per-item values, and compared with set-theoretic definitions; seeded random larger instances (up to 40 cycles) follow. Exhaustive at the stated bound, sampling beyond.',
+    'text': 'Held on every structure enumerated: for EVERY boolean selection vector of length 1..10 (quick) / 1..12 (thorough) combined with three cycle-length / gap layouts (no gaps, interior -1 gaps, leading+trailing gaps) all 12 emd._cycles_support.map_* functions are called on every existing sample, cycle, subset-cycle and chain and all 6 project_* functions on distinct per-item values, and compared with set-theoretic definitions; seeded random larger instances (up to 40 cycles) follow. Exhaustive at the stated bound, sampling beyond. Schedules: the same deterministic calls made from 4-5 threads of one interpreter at once (thread switch every 1-10 microseconds) must reproduce the results obtained alone. A quarter of the shards run in a session that turns Deprecation/Future/UserWarnings into errors.',
     'note': 'Trusted: numpy. Subset and chain vectors are built with the library\'s own get_subset_vector / get_chain_vector and compared with the reference construction first. The two *_augmented maps need a phase and belong to C15.',
     'technique': 'set-theoretic reference model vs the real index maps, exhaustive enumeration of selection structures + seeded random',
 }
